@@ -256,12 +256,16 @@ func (s *vTimedSrc) Close() {}
 // the batcher could first have had the batch's oldest item (its arrival, or the hand-over of the
 // previous batch if the batcher was still holding that). The lower bound (underfilled only after
 // maxWait) and the partition assertions are checked as well.
-// args: items L, batchSize
-//verif:case C11 quick VerifBatchPrompt 1..3 2 @prompt=1 @fires=12 @noreplay=1 @arith=1
-//verif:case C11 quick VerifBatchPrompt 3 3 @prompt=1 @fires=12 @noreplay=1 @arith=1
-//verif:case C11 thorough VerifBatchPrompt 4 2..3 @prompt=1 @fires=16 @noreplay=1 @arith=1
-//verif:case C11 thorough VerifBatchPrompt 5 2 @prompt=1 @fires=20 @noreplay=1 @arith=1
-func VerifBatchPrompt(L int, batchSize int) {
+// With slowFull = 1 the batch is built by BatchFunc with a full() callback that takes a symbolic
+// time to answer (possibly longer than maxWait); the latency bound is then not asserted (it would
+// have to account for the callback), the lower bound and the partition assertions are.
+// args: items L, batchSize, slowFull
+//verif:case C11 quick VerifBatchPrompt 1..3 2 0 @prompt=1 @fires=12 @noreplay=1 @arith=1
+//verif:case C11 quick VerifBatchPrompt 3 3 0 @prompt=1 @fires=12 @noreplay=1 @arith=1
+//verif:case C11 quick VerifBatchPrompt 2 2 1 @prompt=1 @fires=16 @noreplay=1 @arith=1
+//verif:case C11 thorough VerifBatchPrompt 4 2..3 0 @prompt=1 @fires=16 @noreplay=1 @arith=1
+//verif:case C11 thorough VerifBatchPrompt 3 2 1 @prompt=1 @fires=16 @noreplay=1 @arith=1
+func VerifBatchPrompt(L int, batchSize int, slowFull int) {
 	src := &vTimedSrc{}
 	for i := 0; i < L; i++ {
 		g := time.Duration(vNondetInt("gap"))
@@ -270,13 +274,26 @@ func VerifBatchPrompt(L int, batchSize int) {
 	}
 	maxWait := time.Duration(vNondetInt("maxWait"))
 	vAssume(vAnd(maxWait > 0, maxWait < 1<<40))
-	out := Batch[int](src, maxWait, batchSize)
+	var out Stream[[]int]
+	if slowFull == 1 {
+		fullDur := time.Duration(vNondetInt("fullDur"))
+		vAssume(vAnd(fullDur >= 0, fullDur < 1<<41))
+		out = BatchFunc[int](src, maxWait, func(b []int) bool {
+			time.Sleep(fullDur)
+			return len(b) >= batchSize
+		})
+	} else {
+		out = Batch[int](src, maxWait, batchSize)
+	}
 	ctx := context.Background()
 	got := 0
 	var prevT time.Time
 	for call := 0; got < L; call++ {
 		d := time.Duration(vNondetInt("pause"))
 		vAssume(vAnd(d >= 0, d < 1<<40))
+		if slowFull == 1 {
+			vAssume(d == 0) // (bound: with a slow full() the consumer asks again at once)
+		}
 		time.Sleep(d)
 		w := time.Now()
 		batch, err := out.Next(ctx)
@@ -303,7 +320,9 @@ func VerifBatchPrompt(L int, batchSize int) {
 		if w.After(due) {
 			due = w
 		}
-		vAssert(!t.After(due), "C11:batchprompt/handed-to-the-waiting-consumer-once-maxwait-has-passed")
+		if slowFull == 0 {
+			vAssert(!t.After(due), "C11:batchprompt/handed-to-the-waiting-consumer-once-maxwait-has-passed")
+		}
 		prevT = t
 		got += len(batch)
 	}
